@@ -21,6 +21,20 @@ func (e *iso9660encoder) padLastSector() {
 	}
 }
 
+// appendDirEntries writes records of one directory: record never crosses sector border,
+// unused rest of sector (and of the last sector) filled with zeroes. Must be in sync with dirEntriesSize.
+func (e *iso9660encoder) appendDirEntries(entries []directoryEntry) {
+	for _, entry := range entries {
+		if e.size()%sectorSize+entry.size() > sectorSize {
+			e.padLastSector()
+		}
+
+		entry.encode(e)
+	}
+
+	e.padLastSector()
+}
+
 func (e *iso9660encoder) appendByte(b byte) {
 	*e = append(*e, b)
 }
